@@ -26,6 +26,7 @@ import (
 	sdk "github.com/cosmos/cosmos-sdk/types"
 	govtypes "github.com/cosmos/cosmos-sdk/x/gov/types"
 	govv1 "github.com/cosmos/cosmos-sdk/x/gov/types/v1"
+	htlctypes "mods.irisnet.org/modules/htlc/types"
 	"mods.irisnet.org/simapp"
 	"pgregory.net/rapid"
 
@@ -149,6 +150,7 @@ type c11Machine struct {
 	ops        []blockOp
 	digests    []blockDigest
 	restarts   int
+	variant    string
 	txs, okTxs int
 	maxTxs     int
 }
@@ -161,13 +163,48 @@ func mustNode() *chain.Node {
 	return n
 }
 
-func newC11() pbt.Machine[blockOp] {
-	m := &c11Machine{r0: mustNode(), r1: mustNode(), r2: mustNode(), maxTxs: 4}
+// genesisVariants: the same genesis with fields a genesis file may legitimately leave out.
+var genesisVariants = []string{"", "", "htlc-no-previous-block-time"}
+
+func variantOpts(variant string) chain.Options {
+	o := nodeOpts
+	if variant == "htlc-no-previous-block-time" {
+		o.GenesisMod = func(app *simapp.SimApp, gs simapp.GenesisState) {
+			baseGenesisMod(app, gs)
+			var hg htlctypes.GenesisState
+			app.AppCodec().MustUnmarshalJSON(gs[htlctypes.ModuleName], &hg)
+			hg.PreviousBlockTime = time.Time{}
+			gs[htlctypes.ModuleName] = app.AppCodec().MustMarshalJSON(&hg)
+		}
+	}
+	return o
+}
+
+func nodeFor(variant string) *chain.Node {
+	n, err := chain.NewNode(variantOpts(variant), nil, 1)
+	if err != nil {
+		panic(err)
+	}
+	return n
+}
+
+func newC11() pbt.Machine[blockOp] { return &c11Machine{maxTxs: 4} }
+
+// build constructs the replicas from the genesis variant named by the first operation.
+func (m *c11Machine) build(variant string) {
+	m.variant = variant
+	m.r0, m.r1, m.r2 = nodeFor(variant), nodeFor(variant), nodeFor(variant)
 	m.h = &hist{n: m.r0, w: newWorld(), rich: 4}
-	return m
 }
 
 func (m *c11Machine) Next(t *rapid.T) blockOp {
+	if m.r0 == nil {
+		v := rapid.SampledFrom(genesisVariants).Draw(t, "genesis")
+		if v == "" {
+			v = "default"
+		}
+		return blockOp{Genesis: v}
+	}
 	op := m.h.nextBlock(t, m.maxTxs)
 	if len(m.ops) > 0 && rapid.IntRange(0, 3).Draw(t, "restart") == 0 {
 		op.Restart = true
@@ -176,6 +213,16 @@ func (m *c11Machine) Next(t *rapid.T) blockOp {
 }
 
 func (m *c11Machine) Apply(op blockOp) error {
+	if m.r0 == nil {
+		v := op.Genesis
+		if v == "default" {
+			v = ""
+		}
+		m.build(v)
+		if op.Genesis != "" {
+			return nil
+		}
+	}
 	if op.Restart && m.r2.Height >= 1 {
 		m.r2.Restart()
 		m.restarts++
@@ -224,7 +271,7 @@ func exportHash(n *chain.Node) (string, error) {
 }
 
 func (m *c11Machine) Finish() error {
-	if len(m.ops) == 0 {
+	if m.r0 == nil || len(m.ops) == 0 {
 		return nil
 	}
 	// every replica exports twice; all exports must be byte-identical
@@ -244,7 +291,7 @@ func (m *c11Machine) Finish() error {
 	}
 	// second OS process
 	if os.Getenv("VERIF_C11_NOCHILD") == "" {
-		rep, err := runChild(m.ops)
+		rep, err := runChild(m.variant, m.ops)
 		if err != nil {
 			return pbt.Failf("harness/child", "child process: %v", err)
 		}
@@ -267,7 +314,7 @@ func (m *c11Machine) Finish() error {
 	return nil
 }
 
-func runChild(ops []blockOp) (*childReport, error) {
+func runChild(variant string, ops []blockOp) (*childReport, error) {
 	dir, err := os.MkdirTemp(pbt.OutDir(), "c11child")
 	if err != nil {
 		return nil, err
@@ -279,7 +326,7 @@ func runChild(ops []blockOp) (*childReport, error) {
 		return nil, err
 	}
 	cmd := exec.Command(os.Args[0], "-test.run", "^TestC11Child$", "-test.timeout", "300s")
-	cmd.Env = append(os.Environ(), "VERIF_C11_CHILD="+in)
+	cmd.Env = append(os.Environ(), "VERIF_C11_CHILD="+in, "VERIF_C11_VARIANT="+variant)
 	out, err := cmd.Output()
 	if err != nil {
 		return nil, fmt.Errorf("%v: %s", err, out)
@@ -314,7 +361,7 @@ func TestC11Child(t *testing.T) {
 		t.Fatal(err)
 	}
 	rep := childReport{}
-	n := mustNode()
+	n := nodeFor(os.Getenv("VERIF_C11_VARIANT"))
 	for _, op := range ops {
 		resp, err := runBlock(n, op)
 		if err != nil {
@@ -336,6 +383,12 @@ var dbgOK, dbgFail = map[string]int{}, map[string]int{}
 
 func (m *c11Machine) Classify() (bool, []string) {
 	var cl []string
+	if m.r0 == nil {
+		return false, nil
+	}
+	if m.variant != "" {
+		cl = append(cl, "genesis-variant:"+m.variant)
+	}
 	for k, v := range m.h.w.msgOK {
 		dbgOK[k] += v
 	}
